@@ -82,6 +82,7 @@ async def execute(case, transport="mem"):
         pos = [0] * len(scripts)
         ack = {"state": 0, "cfg": set(), "edb": set()}
         noise_done = False
+        timeouts_fired = 0
         noise_closed = False
         noise_conns = []
         k = 0
@@ -95,8 +96,8 @@ async def execute(case, transport="mem"):
                     enabled.append(("step", c))
             if world.gate.pending:
                 enabled.append(("release",))
-            if world.timers.pending:
-                enabled.append(("timeout",))   # a timeout the server armed (wait_for) expires now: only exists if the code arms one
+            if world.timers.pending and timeouts_fired < case.get("max_timeouts", 2):
+                enabled.append(("timeout",))   # a timeout the server armed (wait_for / wait) expires now: only exists if the code arms one
             script_work = any(e[0] in ("open", "step") for e in enabled)
             if case.get("noise") and not noise_done and script_work:
                 enabled.append(("noise",))
@@ -128,8 +129,11 @@ async def execute(case, transport="mem"):
                     await conns[c].send("token", tok, token_digest=hashlib.sha256(tok).digest())
                 elif item == "close":
                     await conns[c].close()
+                elif item == "abort":
+                    await conns[c].abort()
             elif ev[0] == "timeout":
                 world.timers.fire_one()
+                timeouts_fired += 1
                 executed.append(["timeout"])
             elif ev[0] == "noise":
                 # background traffic of OTHER services in the same server process: case["noise"] other service ids connect
@@ -337,14 +341,19 @@ def script_sets(tier):
 @st.composite
 def st_case(draw):
     n = draw(st.sampled_from([2, 3, 3]))
-    scripts = [draw(st.lists(st.sampled_from(ITEMS), max_size=3)) for _ in range(n)]
-    scripts = [s[:s.index("close") + 1] if "close" in s else s for s in scripts]
+    scripts = [draw(st.lists(st.sampled_from(ITEMS + ["abort"]), max_size=3)) for _ in range(n)]
+
+    def cut(s):
+        ends = [i for i, x in enumerate(s) if x in ("close", "abort")]
+        return s[:ends[0] + 1] if ends else s
+    scripts = [cut(s) for s in scripts]
     choices = draw(st.lists(st.integers(0, 5), max_size=30))
     case = {"scripts": scripts, "choices": choices}
     if draw(st.integers(0, 3)) == 0:
         case["noise"] = draw(st.sampled_from([130, 200, 300, 1100]))
     if draw(st.integers(0, 2)) == 0:
         case["same_cfg"] = True
+    case["max_timeouts"] = 4
     return case
 
 
@@ -357,6 +366,8 @@ def confirm(res):
             case["noise"] = v["case"]["noise"]
         if v["case"].get("same_cfg"):
             case["same_cfg"] = True
+        if v["case"].get("max_timeouts"):
+            case["max_timeouts"] = v["case"]["max_timeouts"]
         try:
             run_case(case)
         except Violation as v2:
@@ -411,6 +422,12 @@ def fidelity_body(case, res):
 NOISE_SCRIPTS = [[["config"], ["upload"]], [["config", "upload"], ["search"]], [[], ["config"]], [["config"], ["close"], ["upload"]]]
 # script sets whose every schedule is enumerated with all connections sending the SAME configuration
 SAME_CFG_SCRIPTS = [[["config", "upload"], ["config"], ["upload"]], [["config"], ["config", "upload"], ["upload"]]]
+# script sets in which a connection ends WITHOUT a closing handshake (peer killed, network gone): every schedule enumerated
+ABORT_SCRIPTS = [[["config", "abort"], ["upload"]], [["config", "abort"], ["upload", "close"], ["upload"]], [["abort"], ["config"]],
+                 [["config", "upload", "abort"], ["search"]]]
+
+
+MAX_SCHEDULES_PER_SHARD = 6000
 
 
 def shards(tier):
@@ -423,6 +440,7 @@ def shards(tier):
     # the same with 1100 background connections (more than a thousand other services between two connections of the one under test)
     out += [{"kind": "noise", "part": i, "n": 1100} for i in ([2] if tier == "quick" else [2, 0])]
     out += [{"kind": "same_cfg", "part": i} for i in range(len(SAME_CFG_SCRIPTS))]
+    out += [{"kind": "abort", "part": i} for i in range(len(ABORT_SCRIPTS))]
     return out
 
 
@@ -443,6 +461,8 @@ def run_shard(spec, seed, tier):
         mine, noise = [NOISE_SCRIPTS[spec["part"]]], spec.get("n", 130)
     elif same_cfg:
         mine = [SAME_CFG_SCRIPTS[spec["part"]]]
+    elif spec["kind"] == "abort":
+        mine = [ABORT_SCRIPTS[spec["part"]]]
     else:
         mine = [s for i, s in enumerate(allscripts) if i % spec["of"] == spec["part"]]
     first = {}
@@ -455,6 +475,11 @@ def run_shard(spec, seed, tier):
             break
         for case in enumerate_schedules(scripts, noise=noise, same_cfg=same_cfg):
             nsched += 1
+            if nsched > MAX_SCHEDULES_PER_SHARD:
+                # only code that arms timers makes the schedule space this large (every armed timeout is one more event everywhere)
+                res.notes.append("enumeration cut off after %d schedules" % MAX_SCHEDULES_PER_SHARD)
+                res.exhaustive = False
+                break
             try:
                 body(case, res)
             except Violation as v:
@@ -470,6 +495,13 @@ def run_shard(spec, seed, tier):
                 break
     if res.exhaustive is None:
         res.exhaustive = True
+    if spec["kind"] == "abort":
+        res.extra["abort_schedules"] = nsched
+        res.extra["abort_bounds"] = "every schedule of %d script sets in which a connection ends without a closing handshake" % len(ABORT_SCRIPTS)
+        for bucket, (case, msg) in first.items():
+            res.add_violation(case, msg, bucket)
+        confirm(res)
+        return res
     if spec["kind"] == "same_cfg":
         res.extra["same_cfg_schedules"] = nsched
         res.extra["same_cfg_bounds"] = "every schedule of %d three-connection script sets in which all connections send the same configuration" % len(SAME_CFG_SCRIPTS)
